@@ -57,6 +57,11 @@ func init() {
 		{"C07", "adder", props.C07adder},
 		{"C05", "adder", props.C07adder},
 		{"C17", "garble", props.C01},
+		{"C13", "splitbits", props.SplitBits},
+		{"C01", "splitbits", props.SplitBits},
+		{"C02", "splitbits", props.SplitBits},
+		{"C05", "splitbits", props.SplitBits},
+		{"C10", "splitbits", props.SplitBits},
 		{"C11", "directwrite", props.TransportWriteExclusive},
 		{"C04", "constbalance", props.ConstBalance},
 		{"C03", "constbalance", props.ConstBalance},
